@@ -224,6 +224,16 @@ def persistTag (n n' : Node) : String :=
 def roleCh : Role → String
   | .follower => "f" | .candidate => "c" | .leader => "L" | .learner => "l"
 
+def parseIEv (noop : Option Nat) (x : String) : Option IEv :=
+  match x.splitOn "." with
+  | ["nci", k] => k.toNat?.map .commitIdx
+  | ["nc", t] => if t == "@" then noop.map .noopCommitted else t.toNat?.map .noopCommitted
+  | ["bf", l] => if l == "-" then some (.becomeFollower none) else l.toNat?.map fun v => .becomeFollower (some v)
+  | ["bc"] => some .becomeCandidate
+  | ["ld", l, t] => do some (.leaderDiscovered (← l.toNat?) (← t.toNat?))
+  | ["ht", t] => t.toNat?.map .higherTermReply
+  | _ => none
+
 structure Exec where
   c : Cluster
   seen : Nat → Nat            -- number of pubs of a node already printed
@@ -314,6 +324,19 @@ def execOp (ids : List Nat) (e : Exec) (op : String) : String × Exec :=
           match node.role, node.noopTerm with
           | .leader, some _ => ("ok", (e.step (.noopCommitted me)).tag "nc:leader")
           | _, _ => ("noop", e.tag "nc:noop")
+        else if name == "iq" then
+          -- internal event queue `A[~B]`: A buffered, B in the channel (ElectQueue in Model/Elect.lean: `runIQ`)
+          let spec := p.getD 2 "-"
+          let (a, b) := match spec.splitOn "~" with
+            | [a, b] => (a, b)
+            | _ => (spec, "-")
+          let evs (x : String) : List IEv := if x == "-" || x.isEmpty then [] else (x.splitOn "+").filterMap (parseIEv (if node.role == .leader then node.noopTerm else none))
+          let q0 : IQ := ⟨node, evs a, evs b, []⟩
+          let q := runIQ false 100 (4 * ((evs a).length + (evs b).length) + 8) q0
+          let items := q.log.reverse.map fun (r, t, pb) =>
+            s!"{roleCh r}{t}={match pb with | some v => showPub v | none => "-"}"
+          let st := if items.isEmpty then "-" else "_".intercalate items
+          (s!"iq.{st}", { e with c := e.c.setNode me q.node }.tag "iq")
         else if name == "lg" then ("ok", e.step (.logChange me (argN 2) (argN 3)))
         else if name == "cc" then
           match parseChange (p.getD 2 "") with
@@ -387,6 +410,7 @@ inductive Ev where
   | skip (node voters : Nat)             -- election won without sending a request, with that many other voters
   | mark (node : Nat) (what : String)    -- crash / restart / sd / ae (attribution of a failure to a trigger)
   | lateSave (node : Nat) (granted : Bool)  -- the hard state was saved after the reply had been handed over
+  | staleSelf (node : Nat)               -- the node announced itself as leader while it was not in the leader role
 deriving Repr
 
 /-- the `.r<j>=g<b>t<term>(<tail of j>)` pieces of an election result -/
@@ -455,6 +479,26 @@ def opEvents (ids : List Nat) (op out : String) : Option (List Ev) :=
               | _ => none
             | [] => none
           else some tailEvs
+        else if name == "iq" then
+          -- items `<role><term>=<pub>`: a publication of the node itself needs the leader role at that moment
+          let items := ((res.drop 3).toString.splitOn "_").filter (· != "-")
+          let bad := items.any fun it =>
+            match it.splitOn "=" with
+            | [rt, pb] =>
+              match parsePub pb with
+              | some (some (l, _)) => l == me && !(rt.startsWith "L")
+              | _ => false
+            | _ => false
+          -- events the node cannot enqueue itself in that form (explicit NoopCommitted term, BecomeFollower(Some),
+          -- LeaderDiscovered) are a malformed stream: correspondence only, no C31 judgement
+          let spec := p.getD 2 "-"
+          let flat := (spec.splitOn "~").flatMap (·.splitOn "+")
+          -- a leader never enqueues NoopCommitted behind its own BecomeFollower
+          let ncAfterBf := ((flat.dropWhile fun x => !x.startsWith "bf.").any fun x => x.startsWith "nc.")
+          let adversarial := ncAfterBf || flat.any fun x =>
+            (x.startsWith "nc." && x != "nc.@") || (x.startsWith "bf." && x != "bf.-") || x.startsWith "ld."
+          some ((if bad then [Ev.staleSelf me] else []) ++ (if adversarial then [Ev.mark me "adversarial-iq"] else [])
+                ++ tailEvs)
         else if name == "sd" || name == "crash" || name == "restart" || name == "stop" || name == "cc" then
           some ([Ev.mark me name] ++ tailEvs)
         else some tailEvs
@@ -548,7 +592,9 @@ def monC03cl (evs : List Ev) : String :=
 
 def monC31 (_learners : List Nat) (evs : List Ev) : String :=
   let ps := allPubs evs
-  if ps.isEmpty then "skip"
+  if hasMark evs "adversarial-iq" then "skip"
+  else if evs.any (fun | .staleSelf _ => true | _ => false) then "bad announced-itself-after-step-down"
+  else if ps.isEmpty then "skip"
   else
     match (nodesOf evs).find? fun n => !sortedLE (pubTerms (pubsOf evs n)) with
     | some _ => "bad notified-term-regressed"
